@@ -4,6 +4,7 @@
 pre=$1; shift
 cp /verif/tools/seed/instructions-breaking.md /tmp/s4-instructions.md
 cp /verif/tools/seed/instructions-benign.md /tmp/sb-instructions.md
+cp /verif/tools/seed/instructions-open.md /tmp/so-instructions.md
 for id in "$@"; do
   wt=/tmp/$pre-$id
   [ -d $wt ] || git -C /repo worktree add -q --detach $wt HEAD
